@@ -76,9 +76,19 @@ def _body_cond(nrows, nfeat, weighted, by_list, labels="unique"):
         on = "x0" if nfeat == 1 else ["x0", "x1"]
         kw = {}
         ws = None
+        weights_kept = True
         if weighted:
             ws = [sym.sym_int(f"w{i}", 1, 3) for i in range(len(groups))]
             kw["group_weights"] = list(ws)
+        if weighted == "array-twice" and groups:
+            # the weights as ONE NumPy array handed to two calls in a row: the second call sees the same weights (the caller's array is left alone)
+            from models import np_model
+            warr = np_model.array(list(ws))
+            kw["group_weights"] = warr
+            stats.pc_conditional(df, ["grp"] if by_list else "grp", on, **kw)
+            if len(warr._d) != len(ws):
+                return False, "the caller's group_weights array was resized"
+            weights_kept = so.b_and(*[so.eq(a, b) for a, b in zip(warr._d, ws)])
         got = stats.pc_conditional(df, ["grp"] if by_list else "grp", on, **kw)
         if not groups:
             return (isinstance(got, float) and math.isnan(got)), f"no group with >= 2 members but result {got!r}"
@@ -92,7 +102,10 @@ def _body_cond(nrows, nfeat, weighted, by_list, labels="unique"):
         for _, d in terms:
             lcm = lcm * d // math.gcd(lcm, d)
         rhs = so.total([so.mul(w2[i], so.mul(terms[i][0], lcm // terms[i][1])) for i in range(len(groups))])
-        return so.close(so.mul(so.mul(got, W), lcm), rhs, 1e-6), (lambda: f"pc_conditional = {_realize(got)}")
+        ok = so.close(so.mul(so.mul(got, W), lcm), rhs, 1e-6)
+        if weighted == "array-twice":
+            ok = so.b_and(weights_kept, ok)
+        return ok, (lambda: f"pc_conditional = {_realize(got)}")
     return body
 
 
@@ -128,6 +141,15 @@ def _replay_cond(nrows, nfeat, weighted, by_list, labels="unique"):
         if weighted:
             ws = [int(inputs.get(f"w{i}", 1)) for i in range(len(groups))]
             kw["group_weights"] = list(ws)
+        if weighted == "array-twice" and groups:
+            import numpy as np
+            for dt in (float, int):
+                warr = np.array(ws, dtype=dt)
+                stats.pc_conditional(df, ["grp"] if by_list else "grp", on, group_weights=warr)
+                if warr.tolist() != [dt(w) for w in ws]:
+                    return False, f"pc_conditional changed the caller's group_weights array from {ws} to {warr.tolist()}"
+            kw["group_weights"] = np.array(ws, dtype=float)
+            stats.pc_conditional(df, ["grp"] if by_list else "grp", on, **kw)
         got = stats.pc_conditional(df, ["grp"] if by_list else "grp", on, **kw)
         if not groups:
             return isinstance(got, float) and math.isnan(got), f"no multi-member group: {got!r}"
@@ -462,6 +484,8 @@ def conditions(tier):
         out.append(Condition(f"C13/pc_conditional/rows={nrows}/feat={nfeat}/" + ("weighted" if weighted else "uniform") + ("/bylist" if by_list else ""),
                              _body_cond(nrows, nfeat, weighted, by_list), _replay_cond(nrows, nfeat, weighted, by_list),
                              budget=600 if not T else 3000, models=M, bounds=f"{nrows} rows, symbolic group keys (<= 3 groups), {nfeat} feature column(s)"))
+    out.append(Condition("C13/pc_conditional/rows=4/feat=1/weights-as-one-array-used-twice", _body_cond(4, 1, "array-twice", False), _replay_cond(4, 1, "array-twice", False),
+                         budget=600 if not T else 3000, models=M, bounds="4 rows, symbolic group keys; symbolic group weights held in one NumPy array passed to two calls in a row"))
     for nrows, weighted in [(3, False), (4, True)]:       # repeated row labels: rows are identified by position, never by label
         out.append(Condition(f"C13/pc_conditional/rows={nrows}/feat=1/" + ("weighted" if weighted else "uniform") + "/repeated-row-labels",
                              _body_cond(nrows, 1, weighted, False, "repeated"), _replay_cond(nrows, 1, weighted, False, "repeated"),
